@@ -594,6 +594,10 @@ class Engine(object):
             if pname in c.pow2 and isinstance(v, SInt):
                 v.pow2 = z3.FreshConst(z3.IntSort(), 'pow2_' + pname)
         self.frame0 = frame
+        # parameter names in postconditions / raises-conditions denote the values passed in (objects by
+        # reference, so in-place mutation is visible); rebinding a parameter inside the body does not
+        # change what the contract talks about
+        self.params0 = dict(frame.vars)
         self.yields = PList([]) if c.yields is not None else None
         for i, r in enumerate(c.requires):
             self.assume(self.coerce(self.ev_spec(r, frame), Bool))
@@ -613,7 +617,7 @@ class Engine(object):
         if self.yields is not None:
             result = PGen(self.yields.val)
         self.cover('%s.return' % c.funcname)
-        post = Frame(parent=frame, vars={'result': result})
+        post = Frame(parent=frame, vars=dict(self.params0, result=result))
         self.use_lemmas('post', post)
         for i, e in enumerate(c.ensures):
             self.oblige('%s.post.%d' % (c.funcname, i), self.coerce(self.ev_spec(e, post), Bool),
@@ -663,7 +667,7 @@ class Engine(object):
                     self.oblige('%s.raises.%s' % (c.funcname, n), z3.BoolVal(True), kind='raises')
                     self.cover('%s.raise.%s' % (c.funcname, n))
                     return
-                f = Frame(parent=self.frame0, vars={'__exc__': exc})
+                f = Frame(parent=self.frame0, vars=dict(self.params0, __exc__=exc))
                 self.oblige('%s.raises.%s' % (c.funcname, n), self.coerce(self.ev_spec(cond, f), Bool),
                             kind='raises')
                 self.cover('%s.raise.%s' % (c.funcname, n))
@@ -2206,6 +2210,25 @@ class Engine(object):
             if isinstance(r, list):
                 return PList(r)
             return r
+        if isinstance(recv, (SStr, str)) and not kwargs and all(isinstance(a, (SStr, str)) for a in args):
+            rt = recv.t if isinstance(recv, SStr) else z3.StringVal(recv)
+            at = [a.t if isinstance(a, SStr) else z3.StringVal(a) for a in args]
+            if name in ('startswith', 'endswith') and len(at) == 1:
+                return SBool((z3.PrefixOf if name == 'startswith' else z3.SuffixOf)(at[0], rt))
+            if name in ('strip', 'lstrip', 'rstrip') and len(at) <= 1:
+                # over-approximation: only the necessary facts about the result are assumed, so a proof that
+                # goes through holds for the real method; a counter-model has to be replayed on the real code
+                key = 'model:str.%s (over-approximated: result is a %s of the receiver)' % (
+                    name, {'strip': 'substring', 'lstrip': 'suffix', 'rstrip': 'prefix'}[name])
+                self.trusted_used[key] = self.trusted_used.get(key, 0) + 1
+                r = z3.FreshConst(z3.StringSort(), name)
+                self.assume({'strip': z3.Contains(rt, r), 'lstrip': z3.SuffixOf(r, rt), 'rstrip': z3.PrefixOf(r, rt)}[name])
+                return SStr(r)
+            if name in ('lower', 'upper', 'replace', 'title', 'capitalize', 'swapcase', 'casefold', 'expandtabs',
+                        'translate', 'format', 'zfill', 'center', 'ljust', 'rjust'):
+                key = 'model:str.%s (over-approximated: any string)' % name
+                self.trusted_used[key] = self.trusted_used.get(key, 0) + 1
+                return SStr(z3.FreshConst(z3.StringSort(), name))
         raise Unsupported('str.%s on symbolic string' % name)
 
     def call_builtin(self, fn, args, kwargs, node):
